@@ -19,6 +19,26 @@ void create () {
 }
 void set_oid (string s) { oid = s; "/c11/reg"->reg (s, this_object ()); }
 void do_shb (int n) { set_heart_beat (n); }
+void move_into (object d) { move_object (d); }
+
+mixed do_op (string s);
+
+// destruct(carrier) in progress: the driver applies this in every inventory item before it removes the carrier from
+// the heart-beat list; the script may touch any heart beat, including the dying carrier's ("wake on inventory change").
+// Only non-failing, non-destructing operations are run here (restrict_destruct would refuse destruct of others).
+int move_or_destruct (object dest) {
+  string me = oid;
+  string s = "/c11/reg"->script (me, "md");
+  object env = environment (this_object ());
+  VL ("hook " + me + " " + (env ? "/c11/reg"->oid_of (env) : "?"));
+  if (stringp (s))
+    foreach (string op in explode (s, ";")) {
+      string k = explode (op, ",")[0];
+      if (k == "shb" || k == "q" || k == "clone" || k == "flag" || k == "hbs") do_op (op);
+    }
+  VL ("hookend " + me);
+  return 0;   // not moved: the driver destructs this object
+}
 
 mixed do_op (string s);
 
@@ -78,6 +98,14 @@ mixed do_op (string s) {
     VL ("r clone " + me + " " + w[1] + " " + kind + " " + w[3] + " " + query_heart_beat (ob));
     break;
   }
+  case "take":   // take,<item>: the item moves into this object's inventory
+    ob = "/c11/reg"->get (w[1]);
+    if (ob && clonep (ob) && ob != this_object () && !environment (this_object ()) && !environment (ob)
+        && !first_inventory (ob)) {
+      ob->move_into (this_object ());
+      VL ("r take " + me + " " + w[1]);
+    } else VL ("r take " + me + " " + w[1] + " !none");
+    break;
   case "err":
     error ("boom " + me + "\n");
     break;
